@@ -13,7 +13,7 @@ from collections import Counter
 import numpy as np
 
 from ..core import choice, draw_cfg, maybe_long
-from ..oracles import DOCUMENTED_MESSAGES
+from ..oracles import DOCUMENTED_MESSAGES, raise_witness
 from ..problems import FAMILIES, build_problem, draw_problem_spec
 from ..world import Act, Store, pgnorm
 
@@ -86,20 +86,7 @@ def judge(act, cfg, problem, n0, nit0, add, tag, f_prev=None):
                         w["sy_spread_in_last_state"] = float(np.max(sy) / np.min(sy))
                         w["pairs_in_last_state"] = int(sy.size)
                         w["n"] = int(sn["x"].size)
-            ck = act.checkpoint
-            if ck is not None and np.asarray(ck.hess_inv.sk).size:
-                # what reconstruct-by-differences (K11) makes of the checkpoint's pairs: a step at
-                # rounding level can vanish when it is subtracted from a reconstructed point
-                sk = np.asarray(ck.hess_inv.sk, dtype=float)[-int(cfg["maxcor"]):]
-                yk = np.asarray(ck.hess_inv.yk, dtype=float)[-int(cfg["maxcor"]):]
-                xs, gs = [np.asarray(ck.x, dtype=float)], [np.asarray(ck.jac, dtype=float)]
-                for s_i, y_i in zip(sk[::-1], yk[::-1]):
-                    xs.insert(0, xs[0] - s_i)
-                    gs.insert(0, gs[0] - y_i)
-                sy_ck = np.sum(sk * yk, axis=1)
-                sy_re = np.array([(xs[i + 1] - xs[i]).dot(gs[i + 1] - gs[i]) for i in range(len(xs) - 1)])
-                w["restored_pair_degenerate"] = bool(np.any((sy_ck > 0) & ~(sy_re > 0)))
-                w["checkpoint_min_relative_step"] = float(np.min(np.max(np.abs(sk), axis=1)) / max(float(np.max(np.abs(xs[-1]))), 1e-300))
+            w.update({k_: v_ for k_, v_ in raise_witness(act).items() if k_ != "exception"})
             add("raised_without_fault", w)
         return None
     res = act.result
